@@ -59,6 +59,14 @@ CommandSignature ShellCommand::getSignature() const {
       code = code.combine(path);
     }
     code = code.combine(int(depsStyle));
+    // The call above resolves to combine(bool) and only tells "unused" from the
+    // rest; distinguish the remaining styles (keeping existing signatures for
+    // the makefile style).
+    if (depsStyle == DepsStyle::DependencyInfo) {
+      code = code.combine(StringRef("dependency-info"));
+    } else if (depsStyle == DepsStyle::MakefileIgnoringSubsequentOutputs) {
+      code = code.combine(StringRef("makefile-ignoring-subsequent-outputs"));
+    }
     code = code.combine(int(inheritEnv));
     code = code.combine(int(canSafelyInterrupt));
   }
